@@ -286,23 +286,42 @@ Section Docs.
     rewrite (dm_bucket_inv k Hi). reflexivity.
   Qed.
 
+  Lemma combine_seq_In {B} (f : nat -> N) (xs : list B) i x :
+    In (i, x) (combine (map f (seq 0 (length xs))) xs) -> exists j, i = f j /\ nth_error xs j = Some x.
+  Proof.
+    assert (G : forall st, In (i, x) (combine (map f (seq st (length xs))) xs) ->
+                           exists j, i = f (st + j) /\ nth_error xs j = Some x).
+    { induction xs as [|y ys IH]; intros st H; cbn in H; [destruct H|].
+      destruct H as [H|H].
+      - inversion H. subst. exists 0. rewrite Nat.add_0_r. auto.
+      - destruct (IH (S st) H) as [j [E1 E2]]. exists (S j). split; auto. rewrite E1. f_equal. lia. }
+    intros H. destruct (G 0 H) as [j [E1 E2]]. exists j. auto.
+  Qed.
+
+  Lemma names_chunk k (l : list dentry) : names (chunk bs k l) = chunk bs k (names l).
+  Proof. unfold chunk. rewrite <- firstn_map, <- skipn_map. reflexivity. Qed.
+
+  Lemma dm_bucket_pairs_model l k :
+    Forall (fun p => nth_error (names l) (N.to_nat (fst p)) = Some (snd p))
+           (dm_bucket_pairs c (k, chunk bs (N.to_nat k) l)).
+  Proof.
+    apply Forall_forall. intros [i x] Hin. unfold dm_bucket_pairs in Hin. cbn [fst snd] in *.
+    rewrite <- (map_length fst (chunk bs (N.to_nat k) l)) in Hin.
+    apply combine_seq_In in Hin. destruct Hin as [j [-> Hj]]. rewrite Nat2N.id.
+    rewrite names_chunk in Hj. rewrite nth_chunk in Hj. destruct (j <? bs); [exact Hj|discriminate].
+  Qed.
+
   Lemma dm_cross_ok s a qs : dm_rel s a -> dm_cross c a (map (fun q => (q, dm_answer c s q)) qs) = true.
   Proof.
     intros [l [Hi [Hna Hlk]]]. pose proof (@dm_rel_length s a l Hi Hna Hlk) as Hlen.
     pose proof Hi as (Hc & Hn & Hk & Hm & Hx).
-    unfold dm_cross. apply andb_true_intro. split.
-    - apply (@injb_nth _ N.eqb N.eqb_eq (names l)); auto. apply dm_pairs_model. auto.
-    - rewrite (dm_bucket_answers_model qs Hi). rewrite map_length, map_map. cbn [fst]. rewrite map_id.
-      set (ks := bucket_keys qs).
-      destruct (list_eqb N.eqb ks (map N.of_nat (seq 0 (length ks))) && (length a <=? length ks * bs)) eqn:E; auto.
-      apply andb_prop in E. destruct E as [E1 E2]. apply (list_eqb_spec N.eqb N.eqb_eq) in E1. apply Nat.leb_le in E2.
-      rewrite flat_map_map. cbn [snd]. rewrite E1 at 1. rewrite flat_map_map.
-      replace (flat_map (fun x => chunk bs (N.to_nat (N.of_nat x)) l) (seq 0 (length ks)))
-        with (flat_map (fun k => chunk bs k l) (seq 0 (length ks)))
-        by (apply flat_map_ext; intros k; rewrite Nat2N.id; reflexivity).
-      rewrite (concat_chunks_all bs_pos) by lia.
-      apply (enumb_spec N.eqb N.eqb_eq). split; auto.
-      intros x. symmetry. apply (same_lookup_keys N.eqb N.eqb_eq a l Hlk).
+    unfold dm_cross. rewrite (dm_bucket_answers_model qs Hi). apply andb_true_intro. split.
+    - apply (@injb_nth _ N.eqb N.eqb_eq (names l)); auto. apply Forall_app. split; [apply dm_pairs_model; auto|].
+      apply Forall_forall. intros p Hp. apply in_flat_map in Hp. destruct Hp as [[k m] [Hk1 Hk2]].
+      apply in_map_iff in Hk1. destruct Hk1 as [k' [E _]]. inversion E. subst k' m.
+      pose proof (dm_bucket_pairs_model l k) as HF. rewrite Forall_forall in HF. apply HF. auto.
+    - apply forallb_forall. intros [k m] Hin. apply in_map_iff in Hin. destruct Hin as [k' [E _]].
+      inversion E. subst k' m. cbn [fst snd]. rewrite chunk_length, Hlen. apply Nat.eqb_refl.
   Qed.
 
   Lemma dm_mon_step s a cq : dm_rel s a ->
@@ -336,4 +355,25 @@ Section Docs.
     intros H. exists pre. split; [apply dm_start_inv; auto|]. split; auto.
     unfold dm_pre_ok in H. rewrite !andb_true_iff in H. apply incrb_NoDup. tauto.
   Qed.
+
+  (* ---- index-based access is stable while nothing changes ---- *)
+  Definition dm_flat (s : dm_state) : list dentry :=
+    flat_map (fun k => bk_get0 (dm_buckets s) k) (seq 0 (S (dm_count s / bs))).
+  Lemma dm_flat_inv s l : dm_inv s l -> dm_flat s = l.
+  Proof.
+    intros (Hc & _ & Hk & _). unfold dm_flat. apply (chunk_inv_concat bs_pos _ Hk). rewrite Hc.
+    pose proof (Nat.div_mod (length l) bs). pose proof (Nat.mod_upper_bound (length l) bs). nia.
+  Qed.
+  Definition dm_Inv (s : dm_state) : Prop := exists a, dm_rel s a.
+  Lemma dm_Inv_step s k : dm_Inv s -> dm_Inv (step_state (dm_step c) s k).
+  Proof.
+    intros [a HR]. pose proof (dm_spec_sim k HR) as H. unfold step_state.
+    destruct (dm_step c s k) as [[s' []]|]; [destruct H as [a' [_ H]]; exists a'; auto|exists a; auto].
+  Qed.
+  Lemma dm_L_nodup s : dm_Inv s -> NoDup (names (dm_flat s)).
+  Proof. intros [a [l [Hi _]]]. rewrite (dm_flat_inv Hi). destruct Hi as (_ & H & _). auto. Qed.
+  Lemma dm_L_pairs s qs : dm_Inv s ->
+    Forall (fun p => nth_error (names (dm_flat s)) (N.to_nat (fst p)) = Some (snd p))
+           (dm_pairs (map (fun q => (q, dm_answer c s q)) qs)).
+  Proof. intros [a [l [Hi _]]]. rewrite (dm_flat_inv Hi). apply dm_pairs_model. auto. Qed.
 End Docs.
